@@ -30,6 +30,10 @@ for pid, (tech, text) in ADDENDA4.items():
     CLAIMS[pid]["technique"] += "; " + tech
     CLAIMS[pid]["text"] += " Added in DESIGN.md §10.17: " + text
 
+for pid, (tech, text) in ADDENDA5.items():
+    CLAIMS[pid]["technique"] += "; " + tech
+    CLAIMS[pid]["text"] += " Added in DESIGN.md §10.18: " + text
+
 NOT_APPLICABLE = NA  # from claims.py
 
 allp = [json.loads(l)["id"] for l in open(os.path.join(ROOT, "properties.jsonl"))]
@@ -45,7 +49,7 @@ for pid in allp:
         "evidence_file": f"/verif/evidence/{pid}.json",
         "replay_cmd_template": f"./bin/check -p {pid} -tier quick  # the replay file {{path}} lists the violated obligations (file:line, rule, construct)",
         "engine": "kaicheck",
-        "level_claimed": {"category": "other", "text": c["text"], "design_ref": f"DESIGN.md §4 {pid}" + (", §10.3, §10.9" if pid in ADDENDA else ", §10.3") + (", §10.12–§10.14" if pid in ADDENDA2 else "") + (", §10.16" if pid in ADDENDA3 else "") + (", §10.17" if pid in ADDENDA4 else "")},
+        "level_claimed": {"category": "other", "text": c["text"], "design_ref": f"DESIGN.md §4 {pid}" + (", §10.3, §10.9" if pid in ADDENDA else ", §10.3") + (", §10.12–§10.14" if pid in ADDENDA2 else "") + (", §10.16" if pid in ADDENDA3 else "") + (", §10.17" if pid in ADDENDA4 else "") + (", §10.18" if pid in ADDENDA5 else "")},
         "level_note": c["note"],
         "technique": c["technique"],
     })
